@@ -8,6 +8,7 @@ package producer
 
 import (
 	"bufio"
+	"bytes"
 	"encoding/json"
 	"errors"
 	"io/ioutil"
@@ -47,6 +48,7 @@ type kFake struct {
 	succ   chan *sarama.ProducerMessage
 	mu     sync.Mutex
 	got    [][]byte
+	ptrs   []*sarama.ProducerMessage // the library owns a message once it has accepted it, and encodes it later
 	topics []string
 	fail   map[int]bool
 	events *[]kEvent
@@ -64,6 +66,7 @@ func newKFake(fail map[int]bool, events *[]kEvent) *kFake {
 			b, _ := m.Value.Encode()
 			f.mu.Lock()
 			f.got = append(f.got, b)
+			f.ptrs = append(f.ptrs, m)
 			f.topics = append(f.topics, m.Topic)
 			k := len(f.got)
 			if f.fail[k] {
@@ -122,6 +125,10 @@ func kRun(sc kScript) (res kResult) {
 		fake.mu.Lock()
 		for i, b := range fake.got {
 			m, ok := msgs[string(b)]
+			// what the library sends is what the accepted message holds when its own goroutines get to it: now
+			if late, err := fake.ptrs[i].Value.Encode(); err != nil || !bytes.Equal(late, b) || fake.ptrs[i].Topic != fake.topics[i] {
+				ok = false
+			}
 			if !ok || fake.topics[i] != "vflow.test" {
 				res.Garbage++
 				m = -1
